@@ -3,10 +3,13 @@
      WindowedWeightedCalibration.
    One faithful ring-buffer model, parametrised by the per-update statistic (WinSpec):
      registered states : max_num_updates, total_updates, the (num_tasks x L) buffers, lifetime sums
-     PLAIN ATTRIBUTE   : next_inserted (the cursor)  -- not saved, not loaded, not reset (D5).
+     PLAIN ATTRIBUTE   : next_inserted (the cursor)  -- not saved, not loaded (D5); since the fix
+                       c5ceb09 every class overrides reset() to rewind it.
    merge_state pools the windows into an enlarged buffer WITHOUT enlarging max_num_updates
    (all four classes) -- modelled as it is.
-   [fixed = true] gives the V_fixed variant in which the cursor is treated as a registered state. *)
+   Variants:  V_code  = the code as it is (cursor rewound by reset(), NOT saved / loaded)
+              V_fixed = cursor treated like a registered state everywhere (repaired load)
+              V_pre   = the tree before c5ceb09 (cursor neither saved, loaded nor reset) *)
 From Coq Require Import ZArith List Bool QArith Qcanon String Arith.
 From TE Require Import Base.Val Base.Xq Algebra.Metric Algebra.Pool.
 Import ListNotations.
@@ -25,6 +28,10 @@ Definition sumQ (l : list Qc) : Qc := fold_right Qcplus 0 l.
 Fixpoint zip2 {X Y Z} (f : X -> Y -> Z) (a : list X) (b : list Y) : list Z :=
   match a, b with x :: a', y :: b' => f x y :: zip2 f a' b' | _, _ => [] end.
 Definition dot (a b : list Qc) : Qc := sumQ (zip2 Qcmult a b).
+
+Inductive variant := V_pre | V_code | V_fixed.
+Definition cur_saved (v : variant) : bool := match v with V_fixed => true | _ => false end.
+Definition cur_reset (v : variant) : bool := match v with V_pre => false | _ => true end.
 
 (* ---------- configuration, state, result ---------- *)
 Record wcfg := { cT : nat; cN : nat; cLife : bool; cOpt : bool }.
@@ -55,7 +62,7 @@ Record WinSpec := {
 
 Section Ring.
 Variable W : WinSpec.
-Variable fixed : bool.
+Variable fixed : variant.
 Notation S := (wS W).
 
 Definition zcol (c : wcfg) : list S := repeat (wz W) (cT c).
@@ -108,11 +115,12 @@ Definition win_metric : Metric :=
      init := winit; valid := wvalid W; upd := wupd; mrg := wmrg; cmp := wcmp;
      prep := fun _ s => s;
      (* state_dict(): registered states only -- the cursor is not among them *)
-     save := fun _ s => if fixed then s else with_cur 0 s;
+     save := fun _ s => if cur_saved fixed then s else with_cur 0 s;
      (* load_state_dict(): registered states overwritten, the target keeps ITS cursor *)
-     load := fun _ tgt d => if fixed then d else with_cur (w_cur tgt) d;
-     (* reset(): registered states back to their defaults, the cursor stays *)
-     rst := fun c s => if fixed then winit c else with_cur (w_cur s) (winit c) |}.
+     load := fun _ tgt d => if cur_saved fixed then d else with_cur (w_cur tgt) d;
+     (* reset(): registered states back to their defaults; the override rewinds the cursor
+        (before c5ceb09 the cursor stayed) *)
+     rst := fun c s => if cur_reset fixed then winit c else with_cur (w_cur s) (winit c) |}.
 End Ring.
 
 (* ---------- decoding ---------- *)
@@ -173,7 +181,7 @@ Definition ctr_gam (_ : wcfg) (l : list q2) : list Qc := map ctr_one l.
 Definition ctr_spec : WinSpec :=
   {| wS := q2; wz := q2z; wadd := q2add; wR := list Qc; wvalid := ctr_valid; wstat := ctr_stat;
      wgam := ctr_gam; wwhole := false |}.
-Definition wctr (fixed : bool) : Metric := win_metric ctr_spec fixed.
+Definition wctr (fixed : variant) : Metric := win_metric ctr_spec fixed.
 
 Definition wctr_enc_st (c : wcfg) (s : wst q2) : val :=
   (* sorted names: [life1] max_num_updates total_updates [life2] windowed1 windowed2 ; + next_inserted *)
@@ -183,12 +191,12 @@ Definition wctr_enc_st (c : wcfg) (s : wst q2) : val :=
       ++ [emat q2 q2z (fun x => vq (fst x)) c (w_buf s); emat q2 q2z (fun x => vq (snd x)) c (w_buf s);
           vnat (w_cur s)]).
 (* click_total max_num_updates total_updates weight_total windowed_click_total windowed_weight_total *)
-Definition wctr_codec (fixed : bool) : Codec (wctr fixed) :=
+Definition wctr_codec (fixed : variant) : Codec (wctr fixed) :=
   Build_Codec (wctr fixed) dec_wcfg dec_wb wctr_enc_st (enc_wout vlistQ).
 (* @model wctr run_wctr *)
-Definition run_wctr := run_pool (wctr false) (wctr_codec false).
+Definition run_wctr := run_pool (wctr V_code) (wctr_codec V_code).
 (* @model wctr_fixed run_wctr_fixed *)
-Definition run_wctr_fixed := run_pool (wctr true) (wctr_codec true).
+Definition run_wctr_fixed := run_pool (wctr V_fixed) (wctr_codec V_fixed).
 
 (* =====================================================================================
    WindowedWeightedCalibration   (reference: sum(w*input) / sum(w*target), clamped at eps here)
@@ -205,19 +213,19 @@ Definition wcal_gam (_ : wcfg) (l : list q2) : list Qc := map wcal_one l.
 Definition wcal_spec : WinSpec :=
   {| wS := q2; wz := q2z; wadd := q2add; wR := list Qc; wvalid := wcal_valid; wstat := wcal_stat;
      wgam := wcal_gam; wwhole := false |}.
-Definition wcal (fixed : bool) : Metric := win_metric wcal_spec fixed.
+Definition wcal (fixed : variant) : Metric := win_metric wcal_spec fixed.
 (* max_num_updates total_updates weighted_input_sum weighted_target_sum windowed_... windowed_... *)
 Definition wcal_enc_st (c : wcfg) (s : wst q2) : val :=
   VL ([vnat (w_max s); vnat (w_tot s)]
       ++ (if cLife c then [evec q2 q2z (fun x => vq (fst x)) c (w_life s); evec q2 q2z (fun x => vq (snd x)) c (w_life s)] else [])
       ++ [emat q2 q2z (fun x => vq (fst x)) c (w_buf s); emat q2 q2z (fun x => vq (snd x)) c (w_buf s);
           vnat (w_cur s)]).
-Definition wcal_codec (fixed : bool) : Codec (wcal fixed) :=
+Definition wcal_codec (fixed : variant) : Codec (wcal fixed) :=
   Build_Codec (wcal fixed) dec_wcfg dec_wb wcal_enc_st (enc_wout vlistQ).
 (* @model wcal run_wcal *)
-Definition run_wcal := run_pool (wcal false) (wcal_codec false).
+Definition run_wcal := run_pool (wcal V_code) (wcal_codec V_code).
 (* @model wcal_fixed run_wcal_fixed *)
-Definition run_wcal_fixed := run_pool (wcal true) (wcal_codec true).
+Definition run_wcal_fixed := run_pool (wcal V_fixed) (wcal_codec V_fixed).
 
 (* =====================================================================================
    WindowedMeanSquaredError   (reference: MeanSquaredError; IEEE division made explicit)
@@ -241,7 +249,7 @@ Definition mse_gam (c : wcfg) (l : list q2) : mse_out :=
 Definition mse_spec : WinSpec :=
   {| wS := q2; wz := q2z; wadd := q2add; wR := mse_out; wvalid := mse_valid; wstat := mse_stat;
      wgam := mse_gam; wwhole := true |}.
-Definition wmse (fixed : bool) : Metric := win_metric mse_spec fixed.
+Definition wmse (fixed : variant) : Metric := win_metric mse_spec fixed.
 Definition mse_out_val (o : mse_out) : val := match o with MScalar x => xq_val x | MVec l => vlistX l end.
 (* max_num_updates sum_squared_error sum_weight total_updates windowed_sse windowed_sum_weight.
    Lifetime sum_squared_error is a 0-dim tensor until the first multi-task statistic is adopted;
@@ -256,12 +264,12 @@ Definition wmse_enc_st (c : wcfg) (s : wst q2) : val :=
       ++ [vnat (w_tot s)]
       ++ [emat q2 q2z (fun x => vq (fst x)) c (w_buf s); emat q2 q2z (fun x => vq (snd x)) c (w_buf s);
           vnat (w_cur s)]).
-Definition wmse_codec (fixed : bool) : Codec (wmse fixed) :=
+Definition wmse_codec (fixed : variant) : Codec (wmse fixed) :=
   Build_Codec (wmse fixed) dec_wcfg dec_wb wmse_enc_st (enc_wout mse_out_val).
 (* @model wmse run_wmse *)
-Definition run_wmse := run_pool (wmse false) (wmse_codec false).
+Definition run_wmse := run_pool (wmse V_code) (wmse_codec V_code).
 (* @model wmse_fixed run_wmse_fixed *)
-Definition run_wmse_fixed := run_pool (wmse true) (wmse_codec true).
+Definition run_wmse_fixed := run_pool (wmse V_fixed) (wmse_codec V_fixed).
 
 (* =====================================================================================
    WindowedBinaryNormalizedEntropy  (from_logits = False)
@@ -290,7 +298,7 @@ Definition ne_stat (c : wcfg) (b : wbatch) : list ne3 :=
 Definition ne_spec : WinSpec :=
   {| wS := ne3; wz := ne3z; wadd := ne3add; wR := list ne3; wvalid := ne_valid; wstat := ne_stat;
      wgam := fun _ l => l; wwhole := false |}.
-Definition wne (fixed : bool) : Metric := win_metric ne_spec fixed.
+Definition wne (fixed : variant) : Metric := win_metric ne_spec fixed.
 
 Definition sym_val (e : sym) : val :=
   fold_right (fun t acc => radd (rmul (vq (fst t)) (rln (vq (snd t)))) acc) (vq 0) e.
@@ -312,12 +320,12 @@ Definition wne_enc_st (c : wcfg) (s : wst ne3) : val :=
       ++ [emat ne3 ne3z (fun x => vq (ne_n x)) c (w_buf s); emat ne3 ne3z (fun x => vq (ne_pos x)) c (w_buf s);
           emat ne3 ne3z (fun x => sym_val (ne_ent x)) c (w_buf s);
           vnat (w_cur s)]).
-Definition wne_codec (fixed : bool) : Codec (wne fixed) :=
+Definition wne_codec (fixed : variant) : Codec (wne fixed) :=
   Build_Codec (wne fixed) dec_wcfg dec_wb wne_enc_st (enc_wout (fun l => VL (map ne_val l))).
 (* @model wne run_wne *)
-Definition run_wne := run_pool (wne false) (wne_codec false).
+Definition run_wne := run_pool (wne V_code) (wne_codec V_code).
 (* @model wne_fixed run_wne_fixed *)
-Definition run_wne_fixed := run_pool (wne true) (wne_codec true).
+Definition run_wne_fixed := run_pool (wne V_fixed) (wne_codec V_fixed).
 
 (* ---------- references: the NON-windowed metric over a list of updates ---------- *)
 Definition win_ref (W : WinSpec) (c : wcfg) (us : list wbatch) : wR W :=
